@@ -3,7 +3,8 @@
    Schema.is_subtype / is_possible_type / get_possible_types, and of the
    [_is_valid] memo with its invalidation by register_resolver /
    register_default_resolver / register_subscription (schema.py,
-   resolver_map.py).
+   resolver_map.py), and of direct validate_schema(..) calls with either value of
+   enable_resolver_validation.
 
    The model describes the tree AFTER the proposed repairs
      fixes/C13-01-input-field-names.patch      (input field names are checked)
@@ -319,6 +320,22 @@ Definition validate_model (s : schema) : list verr :=
   ++ flat_map (validate_type s) (s_types s)
   ++ validate_directives (s_types s) (s_dirs s).
 
+(* validate_schema(schema, enable_resolver_validation=False): the resolver
+   signature rule is skipped for every field, nothing else looks at resolvers --
+   the same walk over the schema with all resolvers taken away *)
+Definition strip_field (f : field_def) : field_def :=
+  mkField (f_name f) (f_type f) (f_args f) (f_depr f) None.
+Definition strip_body (b : type_body) : type_body :=
+  match b with
+  | BObject i fs _ => BObject i (map strip_field fs) None
+  | BInterface fs => BInterface (map strip_field fs)
+  | _ => b
+  end.
+Definition strip_resolvers (s : schema) : schema :=
+  mkSchema (map (fun t => mkType (t_name t) (t_intro t) (t_spec t) (strip_body (t_body t))) (s_types s))
+           (s_dirs s) (s_query s) (s_mutation s) (s_subscription s) None.
+Definition validate_structural (s : schema) : list verr := validate_model (strip_resolvers s).
+
 Definition schema_valid (s : schema) : bool :=
   match validate_model s with [] => true | _ => false end.
 
@@ -329,7 +346,8 @@ Definition schema_valid (s : schema) : bool :=
    ([field.resolver is not resolver]) is equality of signatures: the harness
    creates one function object per signature. *)
 Inductive op :=
-| OpValidate
+| OpValidate                                      (* schema.validate() *)
+| OpValidateSchema (resolver_validation : bool)   (* validate_schema(schema, enable_resolver_validation=b), called directly *)
 | OpRegisterResolver (tn fn : str) (sg : rsig) (allow_override : bool)
 | OpRegisterDefault (tn : str) (sg : rsig) (allow_override : bool)
 | OpRegisterSubscription (tn fn : str) (allow_override : bool).
@@ -389,6 +407,12 @@ Definition step (st : mstate) (o : op) : step_result * mstate :=
       if m_memo st then (RAccepted, st) else
       match validate_model (m_schema st) with
       | [] => (RAccepted, mkState (m_schema st) true (m_reg st) (m_defs st) (m_subs st))
+      | errs => (RInvalid errs, st)
+      end
+  | OpValidateSchema rv =>
+      (* the module function neither reads nor writes the memo *)
+      match (if rv then validate_model (m_schema st) else validate_structural (m_schema st)) with
+      | [] => (RAccepted, st)
       | errs => (RInvalid errs, st)
       end
   | OpRegisterDefault tn sg allow => do_register_default st tn sg allow allow
